@@ -7,7 +7,7 @@
 From Coq Require Import String.
 From Coq Require Import List NArith ZArith Bool.
 From SK Require Import lib.LGraph lib.C01_GraphLemmas model.C01_Model model.C02_Model model.C01_Opts model.C01_String model.C01_Renum model.C01_Attrs model.C01_CleanWc model.C01_Rsmi model.C01_Nbrs model.C01_Rewrite model.C01_Conv model.C01_G2M model.C01_DecRaw model.C01_HBal model.C01_M2GIdx model.C01_Prem model.C01_Builders
-  proof.C01_Proof proof.C01_OptsProof proof.C01_StringProof proof.C01_StringHyd proof.C01_StringPipe proof.C01_StringEH proof.C01_StringRenum proof.C01_StringHydExt proof.C01_RenumCentre proof.C01_RenumWrite proof.C01_StringEHwf proof.C01_AttrsProof proof.C01_StringPipeH proof.C01_CleanWcProof proof.C01_RsmiProof proof.C01_NbrsProof proof.C01_RewriteProof proof.C01_ConvProof proof.C01_G2MProof proof.C01_WriteExt proof.C01_RewriteCheck proof.C01_DecRawProof proof.C01_HBalProof proof.C01_HBalString proof.C01_HBalEH proof.C01_M2GIndex proof.C01_ReadWrite proof.C01_HBalW proof.C01_PremProof proof.C01_Capstone proof.C01_ReverseWrite proof.C01_ExtOpts proof.C01_BuildersProof.
+  proof.C01_Proof proof.C01_OptsProof proof.C01_StringProof proof.C01_StringHyd proof.C01_StringPipe proof.C01_StringEH proof.C01_StringRenum proof.C01_StringHydExt proof.C01_RenumCentre proof.C01_RenumWrite proof.C01_StringEHwf proof.C01_AttrsProof proof.C01_StringPipeH proof.C01_CleanWcProof proof.C01_RsmiProof proof.C01_NbrsProof proof.C01_RewriteProof proof.C01_ConvProof proof.C01_G2MProof proof.C01_WriteExt proof.C01_RewriteCheck proof.C01_DecRawProof proof.C01_HBalProof proof.C01_HBalString proof.C01_HBalEH proof.C01_M2GIndex proof.C01_ReadWrite proof.C01_HBalW proof.C01_PremProof proof.C01_Capstone proof.C01_ReverseWrite proof.C01_ExtOpts proof.C01_BuildersProof proof.C01_LightProof proof.C01_ZeroOrder.
 Import ListNotations.
 Local Open Scope Z_scope.
 
@@ -54,7 +54,8 @@ Print Assumptions C01_one_sided_refuted.
        [write] = graph_to_rsmi are oracles (modelled, NOT verified; monitored on the corpora).
        FULL CLAIM of the property text, not proved: for RDKit's actual parser and writer,
        its_to_rsmi (rsmi_to_its r) is atom-map-equivalent to r and has the same unmapped sides.
-       Missing: S1 itself and totality of [write] (RDKit may refuse a graph) — both only tested. *)
+       Missing: S1 itself and totality of [write] (RDKit may refuse a graph) — both only tested. 
+        (Round 5: SUPERSEDED by theorems 15 / 27 / 32, whose premises are about RDKit alone; kept for the record only.) *)
 Theorem C01_rsmi_partial : forall (rsmi : Type) (parse : rsmi -> option (mgraph * mgraph))
     (write : mgraph -> mgraph -> its -> option rsmi),
   (forall g h I s, write g h I = Some s ->
@@ -485,7 +486,9 @@ Print Assumptions C01_rsmi_failures.
         sanitising reader / writer) and W0 "MolToSmiles never emits '>'".  For every string s = r>>p whose sides RDKit reads as
         a balanced reaction: its_to_rsmi(rsmi_to_its(s)) = s' splits again into exactly two sides r', p' which read back as the
         input graphs with every non-centre hydrogen folded.
-        NOT proved: W0 and P1-P4 for the real RDKit (monitored: oracle + kinds rs-split and rs-str). *)
+        NOT proved: W0 and P1-P4 for the real RDKit (monitored: oracle + kinds rs-split and rs-str); the clause "has the same
+        unmapped reactants and products" of the property has NO theorem (it is a statement about RDKit's canonical writer after
+        removing the maps): oracle clause string-unmapped only. *)
 Theorem C01_rsmi_string_roundtrip : forall (rd_read : bool -> String.string -> option rmol)
     (rd_write : bool -> wmol -> option String.string) (ok : mgraph -> Prop),
   (forall w s, rd_write true w = Some s -> has_gt s = false) ->
@@ -839,17 +842,29 @@ Proof. exact detailed_is_transform. Qed.
 Print Assumptions C01_detailed_builder.
 
 (** 56. the legacy builder _create_light_weight_graph (one loop over the atoms, each atom adds its own bonds, add_edge may
-        create the other end before its attributes are known): PARTIAL.
-        FULL statement (not proved; compared on every m2g case with api = light, also on molecules with no / every other atom
-        mapped): for every molecule and flag combination the result has the labels and bonds of transform,
-          forall drop use m g, mol_to_graph drop use m = Some g ->
-            exists g', light_graph drop use m = Some g' /\ (forall n, label g' n = option_map Some (label g n)) /\
-                       (forall u v, adj g' u v = adj g u v).
-        Proved: the statement for molecules without bonds (then the builder is exactly the node loop of transform, node for
-        node, with every attribute present), for every flag combination.  Missing: the invariant of the nested loop (every
-        end created by add_edge is an atom that is not dropped and is filled in when its own turn comes; every bond is
-        upserted twice with the same order). *)
-Theorem C01_light_builder_partial : forall (drop use : bool) (m : rmol), rm_bonds m = nil ->
-  light_graph drop use m = option_map some_nodes (mol_to_graph drop use m).
-Proof. exact light_no_bonds. Qed.
-Print Assumptions C01_light_builder_partial.
+        create the other end before its attributes are known; every bond is upserted from both ends): with the flags of
+        rsmi_to_graph, for every molecule with distinct maps on its mapped atoms and at most one bond per pair of them, the
+        result has exactly the labels and the bonds of transform ([graph_of m], theorem 11) - every node it creates is a mapped
+        atom and ends with that atom's labels, no attribute-less node survives, every bond between mapped atoms is there with
+        its order and nothing else.  (Invariants of the nested loop: an atom that has had its turn carries its attributes,
+        add_edge never overwrites a node, every key is an atom map; an edge is present iff one of its ends has had its turn,
+        the last matching bond of the atom decides, and the order per pair is unique.)  For molecules without bonds the builder
+        is the node loop of transform, node for node, for EVERY flag combination.  Other flag combinations with bonds:
+        compared on every m2g case with api = light (incl. molecules with no / every other atom mapped), not proved. *)
+Theorem C01_light_builder :
+  (forall m : rmol, (NoDup (map fst (mapped_nodes m)) /\ simple (mapped_bonds m)) -> forall g', light_graph true true m = Some g' ->
+     (forall n, label g' n = option_map Some (label (graph_of m) n)) /\ (forall u v, adj g' u v = adj (graph_of m) u v)) /\
+  (forall (drop use : bool) (m : rmol), rm_bonds m = nil ->
+     light_graph drop use m = option_map some_nodes (mol_to_graph drop use m)).
+Proof. exact (conj light_is_transform light_no_bonds). Qed.
+Print Assumptions C01_light_builder.
+
+(** 57. the hypothesis [orders_pos] of the round trip (theorems 1 and 6) is needed: a stored bond of order 0 (RDKit
+        BondType.ZERO; outside "every bond with its order" of the property) is kept by construct as the pair (0, 0) and
+        dropped by its_decompose - compared on the kind `malformed` (order-0 edges), not an alarm *)
+Theorem C01_order_zero_refuted :
+  wf ex_z /\ same_nodes ex_z ex_z /\ ~ orders_pos ex_z /\
+  adj (its_construct ex_z ex_z) 1%N 2%N = Some (IE 0 0 0) /\
+  adj (fst (its_decompose (its_construct ex_z ex_z))) 1%N 2%N = None /\ adj ex_z 1%N 2%N = Some 0.
+Proof. exact order_zero_refuted. Qed.
+Print Assumptions C01_order_zero_refuted.
